@@ -92,10 +92,10 @@ func checkC20(c *km.Ctx) {
 	r.NotDecided = []string{"delivery to a given subscriber (drops are by design)", "ordering between goroutines", "file-system atomicity of the renaming writer"}
 	r.Assume = []string{"go/types + go/ssa model the source faithfully", "a non-blocking select never blocks the sender"}
 
-	r.Rule("R-C20-1", "every signing call is followed, on its success path, by a publication of exactly the signed bytes that dominates every hand-out of the certificate", 4)
-	r.Rule("R-C20-2", "login / authentication / service-provider events are published at every reference site", 13)
-	r.Rule("R-C20-3", "fan-out never blocks and never skips: sends only inside non-blocking selects, the subscriber loop is left only at its end, subscriber channels are buffered", 5)
-	r.Rule("R-C20-4", "history order and retention: the loader links successive saved events at the oldest end (first saved = newest, matching the saver's newest-first walk) with both links set; loader and expiry use the same retention constant", 5)
+	r.Rule("R-C20-1", "every signing call is followed, on its success path, by a publication of exactly the signed bytes that dominates every hand-out of the certificate", 2)
+	r.Rule("R-C20-2", "login / authentication / service-provider events are published at every reference site", 5)
+	r.Rule("R-C20-3", "fan-out never blocks and never skips: sends only inside non-blocking selects, the subscriber loop is left only at its end, subscriber channels are buffered", 2)
+	r.Rule("R-C20-4", "history order and retention: the loader links successive saved events at the oldest end (first saved = newest, matching the saver's newest-first walk) with both links set; loader and expiry use the same retention constant", 2)
 
 	// ---------- R-C20-1
 	nSign := 0
